@@ -105,15 +105,15 @@ func runC05(c *Ctx) {
 			return true
 		}
 		for _, up := range ups {
-			a := up.Common().Args
+			a := refArgs(up)
 			c.check(len(a) == 5 && vConstInt(0)(a[2]) && a[3] == a[4] && posPlus1(a[3]), "R2-strictly-sequential-upload", fnName(fn)+": uploads level 0 file (r.Pos().TXID+1, same)", c.pos(up), "every origin of the uploaded id is r.Pos().TXID + 1", "the uploaded TXID is not exactly one past the replica position (a failed file could be skipped)")
 			okF, outs := failStopOK(fn, up)
 			c.check(okF, rule, fnName(fn)+": a failed upload ends the sync with an error", c.pos(up), "fail-stop", outs)
 			n := 0
 			for _, sp := range callsTo(fn, nameIs("(*ls.Replica).SetPos")) {
-				f := compositeFields(sp.Common().Args[1])
+				f := compositeFields(refArgs(sp)[1])
 				if f == nil {
-					for _, o := range origins(sp.Common().Args[1]) {
+					for _, o := range origins(refArgs(sp)[1]) {
 						if ff := compositeFields(o); ff != nil {
 							f = ff
 						}
@@ -134,7 +134,7 @@ func runC05(c *Ctx) {
 			for _, w := range callsTo(up, nameHasSuffix(".WriteLTXFile")) {
 				okF, outs := failStopOK(up, w)
 				c.check(okF, rule, fnName(up)+": WriteLTXFile failure is returned", c.pos(w), "fail-stop", outs)
-				a := w.Common().Args
+				a := refArgs(w)
 				ok := vParam("level")(a[1]) && vParam("minTXID")(a[2]) && vParam("maxTXID")(a[3]) && vCallResult(nameIs("os.Open"))(a[4])
 				c.check(ok, rule, fnName(up)+": uploads the opened local file under the same (level, min, max)", c.pos(w), "arguments forwarded", "the uploaded name and the uploaded content can differ")
 			}
@@ -154,7 +154,7 @@ func runC05(c *Ctx) {
 			// reader side closed with the write error on every path after the write
 			var cw ssa.CallInstruction
 			for _, call := range callsTo(fn, nameIs("(*io.PipeReader).CloseWithError")) {
-				if vIs(werr)(call.Common().Args[1]) {
+				if vIs(werr)(refArgs(call)[1]) {
 					cw = call
 				}
 			}
@@ -168,10 +168,10 @@ func runC05(c *Ctx) {
 			}
 			for _, cs := range callsTo(fn, nameIs("slot:Compactor.CacheSetter")) {
 				c.requireGuard(rule, fn, Site{cs, "CacheSetter(dstLevel, info)"}, cmpFact(vIs(werr), token.EQL, vNil(), "WriteLTXFile err == nil"))
-				c.check(vIs(resultOf(w, 0))(cs.Common().Args[1]) && vParam("dstLevel")(cs.Common().Args[0]), rule, fnName(fn)+": cache records the file just written at dstLevel", c.pos(cs), "provenance matches", "the level cache is updated with something other than the written file")
+				c.check(vIs(resultOf(w, 0))(refArgs(cs)[1]) && vParam("dstLevel")(cs.Common().Args[0]), rule, fnName(fn)+": cache records the file just written at dstLevel", c.pos(cs), "provenance matches", "the level cache is updated with something other than the written file")
 			}
 			// the written range is the min/max over the iterated inputs, read side is the pipe
-			a := w.Common().Args
+			a := refArgs(w)
 			c.check(vParam("dstLevel")(a[1]) && vCallResult(nameIs("io.Pipe"))(a[len(a)-1]), rule, fnName(fn)+": writes to dstLevel from the compaction pipe", c.pos(w), "provenance matches", "unexpected write arguments")
 		}
 		// goroutine: compaction error reaches the pipe (checked by the cone walk with wantSig); writer side is the same pipe
@@ -292,7 +292,7 @@ func c05Resumable(c *Ctx) {
 	}
 	// reopen at r.offset
 	for _, o := range callsTo(rd, nameHasSuffix(".OpenLTXFile")) {
-		a := o.Common().Args
+		a := refArgs(o)
 		c.check(vFieldLoad("ResumableReader.offset", nil)(a[4]) && vConstInt(0)(a[5]) && vFieldLoad("ResumableReader.level", nil)(a[1]) && vFieldLoad("ResumableReader.minTXID", nil)(a[2]) && vFieldLoad("ResumableReader.maxTXID", nil)(a[3]), rule, fnName(rd)+": reopen (level,min,max) at r.offset with no size limit", c.pos(o), "provenance matches", "the stream is reopened at the wrong position or for the wrong file")
 	}
 	// sticky error: checked first, returned forever
